@@ -107,7 +107,11 @@ def main(run):
     rng = random.Random(run.seed)
     lat = lattice.prec_lattice(tier)
     if tier == "quick":
-        lat = [p for k, p in enumerate(lat) if p["family"] in ("F-setsym", "F-edge", "F-regress") or k % 9 == 0]
+        def keep(p):  # besides the stride: an option whose prompt is not on its last definition
+            pt = p.get("point", {})
+            return p["family"] in ("F-setsym", "F-edge", "F-regress") or (p["family"] == "F-multidef" and pt.get("prompt1") and not pt.get("prompt2"))
+
+        lat = [p for k, p in enumerate(lat) if keep(p) or k % 9 == 0]
         gen = ktree.generate(run.seed + 300, 30)
         maxlen, cap, nwalk = 3, 140, 8
     else:
